@@ -946,25 +946,40 @@ def op_slice_multi(run, ctx):
     """Uncapped slice by several planes at once."""
     m = ctx.mesh()
     route = "slice_plane:multi"
-    orc = C.SliceOracle(ctx.V, ctx.F, ctx.planes)
+    sub = ctx.opts.get("face_index")
+    kx = {"subset": "yes" if sub is not None else "no"}
+    orc = C.SliceOracle(ctx.V, ctx.F, ctx.planes, faces=sub)
     if orc.min_gap < GAP:
         run.skip("multi-plane: an intermediate cut vertex falls inside the threshold band of a later plane")
         return
     for i in range(len(ctx.planes)):
-        record_patterns(run, ctx, "slice_pattern_rot", plane_index=i)
+        record_patterns(run, ctx, "slice_pattern_rot", plane_index=i, faces=sub if i == 0 else None)
     try:
-        RV, RF = _call_slice(ctx, m, ctx.planes, "slice_plane")
+        RV, RF = _call_slice(ctx, m, ctx.planes, "slice_plane", face_index=sub)
     except Exception as e:  # noqa
-        _viol(run, ctx, route, "raised:" + type(e).__name__, "slicing by several planes raised", error=repr(e)[:300])
+        _viol(run, ctx, route, "raised:" + type(e).__name__, "slicing by several planes raised", error=repr(e)[:300], _key=kx)
         return
     lo, hi = orc.area_bounds()
     j = judge_slice(run, ctx, route, RV, RF, ctx.planes)
     if not j["ok"]:
         return
     scale = max(1.0, hi)
-    if not (lo - 10 * TOL * scale <= j["area"] <= hi + 10 * TOL * scale):
+    ok = lo - 10 * TOL * scale <= j["area"] <= hi + 10 * TOL * scale
+    if sub is not None and not ok:
+        # the other reading of a face subset: the faces outside it come back too (sliced by the later planes
+        # like everything else that is left, or untouched) - accepted, as for a single plane
+        chosen = set(sub)
+        rest = [i for i in range(len(ctx.F)) if i not in chosen]
+        r_all = C.SliceOracle(ctx.V, ctx.F, [], faces=rest).total_area()
+        r_lo, r_hi = C.SliceOracle(ctx.V, ctx.F, ctx.planes[1:], faces=rest).area_bounds()
+        for a, b in ((r_all, r_all), (r_lo, r_hi)):
+            if lo + a - 10 * TOL * scale <= j["area"] <= hi + b + 10 * TOL * scale:
+                ok = True
+    if sub is not None:
+        run.count("slice_multi_with_face_subset")
+    if not ok:
         _viol(run, ctx, route, "area", "area of the multi-plane slice differs from the exact area inside all half-spaces",
-              got=j["area"], lo=lo, hi=hi, n_planes=len(ctx.planes))
+              got=j["area"], lo=lo, hi=hi, n_planes=len(ctx.planes), _key=kx)
 
 
 def op_cap(run, ctx):
@@ -1165,6 +1180,11 @@ def workload(run):
             if pi % 3 == 0 and pi + 2 < len(planes):
                 recs = [rec] + [plane_record(planes[pi + j][1], planes[pi + j][2], planes[pi + j][0]) for j in (1, 2)][: 1 + pi % 2]
                 execute(run, make_case("slice_multi", tag, V, F, recs, unit=unit))
+                if len(F) > 2:
+                    # the same planes on a face subset (indices of the ORIGINAL faces)
+                    k = int(rng.integers(1, len(F)))
+                    sub = sorted(int(i) for i in rng.choice(len(F), size=k, replace=False))
+                    execute(run, make_case("slice_multi", tag, V, F, recs, unit=unit, face_index=sub))
             # caps: watertight solids only
             if closed and mclass != "overlapping":
                 eng = ENGINES[pi % 3] if pi % 4 else None
